@@ -336,6 +336,84 @@ fn new_shadow(ties: bool) -> Shadow {
     }
 }
 
+fn label_types(f: usize) -> (usize, usize) {
+    match f {
+        0 => (1, 1),
+        1 => (1, 2),
+        _ => (2, 1),
+    }
+}
+
+/// generator of the sub-entities of a nested mutation (see `bench.rs`, `parse_entries`, for the syntax)
+struct TreeGen<'a> {
+    rows: &'a Vec<(u64, usize, Option<u64>, u64)>,
+    edges: &'a mut Vec<(u64, usize, u64)>,
+    next_handle: &'a mut u64,
+    nrooms: u64,
+    used: Vec<u64>,
+    new_rows: Vec<(u64, usize, Option<u64>, u64)>,
+    caller: u64,
+    max_depth: usize,
+}
+
+impl TreeGen<'_> {
+    /// the targets of field `f` of row `h`; `inherited`: the room named by the nearest ancestor that names one
+    #[allow(clippy::too_many_arguments)]
+    fn kids(&mut self, g: &mut Gen, h: u64, f: usize, de: usize, depth: usize, inherited: Option<u64>, out: &mut Vec<String>) {
+        let nchild = if f == 0 { 1 + g.below(2) } else { 1 };
+        for _ in 0..nchild {
+            let cands: Vec<_> = self.rows.iter().filter(|r| r.1 == de && !self.used.contains(&r.0)).cloned().collect();
+            // prefer a target already referenced by the row above: that row then stays unchanged
+            let linked: Vec<_> = cands.iter().filter(|c| self.edges.contains(&(h, f, c.0))).cloned().collect();
+            let deeper = depth < self.max_depth && g.chance(3, 5);
+            let mut t = ".".repeat(depth);
+            let (ch, own_room);
+            if !cands.is_empty() && !g.chance(1, 4) {
+                let c = if !linked.is_empty() && g.chance(3, 4) { *g.pick(&linked) } else { *g.pick(&cands) };
+                self.used.push(c.0);
+                ch = c.0;
+                t.push_str(&format!("h{}", c.0));
+                // an inner entity without a value and with its targets already linked stays unchanged
+                if g.chance(if deeper { 1 } else { 3 }, 4) {
+                    t.push_str(&format!(":v{}", g.below(90)));
+                }
+                if g.chance(1, 6) {
+                    let r = g.below(self.nrooms as usize) as u64;
+                    t.push_str(&format!(":r{}", r));
+                    own_room = Some(r);
+                } else {
+                    own_room = None;
+                }
+                if !self.edges.contains(&(h, f, c.0)) {
+                    self.edges.push((h, f, c.0));
+                }
+            } else {
+                ch = *self.next_handle;
+                *self.next_handle += 1;
+                self.used.push(ch);
+                t.push_str(&format!("n{}:v{}", ch, g.below(90)));
+                if g.chance(1, 3) {
+                    let r = g.below(self.nrooms as usize) as u64;
+                    t.push_str(&format!(":r{}", r));
+                    own_room = Some(r);
+                } else {
+                    own_room = None;
+                }
+                self.new_rows.push((ch, de, own_room.or(inherited), self.caller));
+                self.edges.push((h, f, ch));
+            }
+            if deeper {
+                let f2 = if de == 1 { g.weighted(&[3, 1]) } else { 2 };
+                t.push_str(&format!(":f{}", f2));
+                out.push(t);
+                self.kids(g, ch, f2, label_types(f2).1, depth + 1, own_room.or(inherited), out);
+            } else {
+                out.push(t);
+            }
+        }
+    }
+}
+
 /// One C01 case (`mode=fn`): two or three rooms whose definitions change over time, callers in every
 /// relation to them (admin, all-rows member, own-rows member, read-only, former member, user admin,
 /// outsider), and data operations of every shape at dates spread over the history: create, update of an
@@ -462,13 +540,9 @@ pub fn c01_case(g: &mut Gen, id: u64, w: &mut impl Write, long: bool, peer: bool
                 }
             }
             3 => {
-                // nested mutation
+                // nested mutation: a tree of depth 2..5 (entries of depth 0..3 below the mutated entity)
                 let f = g.weighted(&[5, 2, 2]);
-                let (se, de) = match f {
-                    0 => (1, 1),
-                    1 => (1, 2),
-                    _ => (2, 1),
-                };
+                let (se, de) = label_types(f);
                 let parents: Vec<_> = rows.iter().filter(|r| r.1 == se).cloned().collect();
                 let parent_new = parents.is_empty() || g.chance(1, 5);
                 let (h, caller) = if parent_new {
@@ -479,49 +553,28 @@ pub fn c01_case(g: &mut Gen, id: u64, w: &mut impl Write, long: bool, peer: bool
                     let p = g.pick(&parents);
                     (p.0, if g.chance(1, 2) { p.3 } else { k })
                 };
-                let nchild = if f == 0 { 1 + g.below(2) } else { 1 };
+                let proom = if parent_new { pick_room(g) } else if g.chance(1, 6) { Some(g.below(nrooms as usize) as u64) } else { None };
+                let max_depth = g.weighted(&[10, 6, 4, 2]);
+                // deep trees touch many rows: half of them are submitted by a key that holds rights (the admin of most
+                // rooms), so that a fair share is accepted as a whole
+                let caller = if max_depth > 0 && g.chance(1, 2) { 1 } else { caller };
+                let mut t = TreeGen {
+                    rows: &rows,
+                    edges: &mut edges,
+                    next_handle: &mut next_handle,
+                    nrooms,
+                    used: vec![h],
+                    new_rows: vec![],
+                    caller,
+                    max_depth,
+                };
                 let mut cs: Vec<String> = vec![];
-                let mut used: Vec<u64> = vec![h];
-                let mut new_rows: Vec<(u64, usize, Option<u64>, u64)> = vec![];
-                for _ in 0..nchild {
-                    let cands: Vec<_> = rows.iter().filter(|r| r.1 == de && !used.contains(&r.0)).cloned().collect();
-                    // prefer a child already referenced by the parent: the parent then stays unchanged
-                    let linked: Vec<_> = cands.iter().filter(|c| edges.contains(&(h, f, c.0))).cloned().collect();
-                    if !cands.is_empty() && !g.chance(1, 4) {
-                        let c = if !linked.is_empty() && g.chance(3, 4) { *g.pick(&linked) } else { *g.pick(&cands) };
-                        used.push(c.0);
-                        let mut t = format!("h{}", c.0);
-                        if g.chance(3, 4) {
-                            t.push_str(&format!(":v{}", g.below(90)));
-                        }
-                        if g.chance(1, 6) {
-                            t.push_str(&format!(":r{}", g.below(nrooms as usize)));
-                        }
-                        cs.push(t);
-                        if !edges.contains(&(h, f, c.0)) {
-                            edges.push((h, f, c.0));
-                        }
-                    } else {
-                        let ch = next_handle;
-                        next_handle += 1;
-                        used.push(ch);
-                        let mut t = format!("n{}:v{}", ch, g.below(90));
-                        let mut room = None;
-                        if g.chance(1, 3) {
-                            let r = g.below(nrooms as usize) as u64;
-                            t.push_str(&format!(":r{}", r));
-                            room = Some(r);
-                        }
-                        cs.push(t);
-                        new_rows.push((ch, de, room, caller));
-                        edges.push((h, f, ch));
-                    }
-                }
+                t.kids(g, h, f, de, 0, proom, &mut cs);
+                let new_rows = t.new_rows;
                 let mut line = format!("nest k={} d={} h={}", caller, d, h);
                 if parent_new {
                     line.push_str(&format!(" pn={}", se));
                 }
-                let proom = if parent_new { pick_room(g) } else if g.chance(1, 6) { Some(g.below(nrooms as usize) as u64) } else { None };
                 if let Some(r) = proom {
                     line.push_str(&format!(" room={}", r));
                 }
@@ -533,10 +586,7 @@ pub fn c01_case(g: &mut Gen, id: u64, w: &mut impl Write, long: bool, peer: bool
                 if parent_new {
                     rows.push((h, se, proom, caller));
                 }
-                for mut nr in new_rows {
-                    if nr.2.is_none() {
-                        nr.2 = proom;
-                    }
+                for nr in new_rows {
                     rows.push(nr);
                 }
             }
